@@ -78,10 +78,13 @@ def geometry_spec(draw, kinds=None, simple_lines=False, allow_degenerate=True, f
         degenerate = draw(st.sampled_from(["time", "freq"]))
 
     def pts(n, mono=False):
-        us = draw(st.lists(u_el, min_size=n, max_size=n))
+        us = draw(st.lists(u_el, min_size=n, max_size=n, unique=mono))
         vs = draw(st.lists(u_el, min_size=n, max_size=n))
         if mono:
             us = sorted(us)
+            for i in range(1, n):  # strictly increasing times even after the affine map
+                if not T(us[i]) > T(us[i - 1]):
+                    us[i] = us[i - 1] + 2.0**-6
         if degenerate == "time":
             us = [us[0]] * n
         if degenerate == "freq":
@@ -95,7 +98,9 @@ def geometry_spec(draw, kinds=None, simple_lines=False, allow_degenerate=True, f
             a, b = (a, a + 1.0) if a <= 3.0 else (a - 1.0, a)
         inner_u = draw(st.lists(u_el, min_size=n - 2, max_size=n - 2))
         if simple_lines:
-            inner_u = sorted(min(max(x, a), b) for x in inner_u)
+            inner_u = sorted({x for x in inner_u if T(a) < T(x) < T(b)})
+            inner_u = [x for i, x in enumerate(inner_u) if i == 0 or T(x) > T(inner_u[i - 1])]
+            n = len(inner_u) + 2
         us = [a] + inner_u + [b]
         vs = draw(st.lists(u_el, min_size=n, max_size=n))
         if degenerate == "freq":
